@@ -389,6 +389,12 @@ func TestCheck(t *testing.T) {
 		}
 	}
 
+	kwTotal, kwMissing := keywordCoverage(g)
+	r.Set("parser_keywords", kwTotal)
+	r.Set("parser_keywords_missing_from_slot_table", append([]string{}, kwMissing...))
+	if len(kwMissing) > 0 {
+		r.NotExhaustive("slot table lacks directives that parser.go accepts: " + strings.Join(kwMissing, ", "))
+	}
 	r.Set("block_kinds", len(g.blocks)+1)
 	r.Set("slots", len(g.slots))
 	r.Set("spellings", nSpell)
@@ -407,9 +413,69 @@ func TestCheck(t *testing.T) {
 	r.Assume("ValidationResult is compared as OK + multiset of Errors + multiset of Warnings (exact text, no positions are embedded by Compile): compileVars ranges over a Go map, so the order of several vars errors is undefined even for a single AST")
 	r.Assume("Compiled is compared with reflect.DeepEqual; generated numeric values never produce NaN (NaN != NaN would be a false difference)")
 	r.Assume("bounded: at most two optional slots vary per program (plus their required siblings/referenced blocks); interactions of three or more directives are not enumerated; comments are semantic no-ops and only their acceptance/stability is checked")
+	r.Assume("quantifier is 'every text that parses': ASTs that only management/MCP mutations can build (e.g. Quoted=false with a value that needs quotes) are not generated; Parse/Format/Compile are called directly, the same entry points `hookaido config fmt` and mutateManagedEndpointConfig use")
 	r.Assume("the AST comparison (astDiff) only labels a violation (drops-blank / drops / alters); the verdict is Parse/Compile/Format behaviour alone")
 	e.report()
 	r.Finish()
+}
+
+// keywordCoverage is a drift detector: every string literal of a `case "…":`
+// clause in parser.go (directive names, auth/sign types, retry options, channel
+// types) must occur as a token in some slot text of the table.
+func keywordCoverage(g *grammar) (total int, missing []string) {
+	repo := os.Getenv("VERIF_REPO")
+	if repo == "" {
+		repo = "/repo"
+	}
+	src, err := os.ReadFile(filepath.Join(repo, "internal/config/parser.go"))
+	if err != nil {
+		return 0, []string{"parser.go unreadable: " + err.Error()}
+	}
+	have := map[string]bool{}
+	addText := func(t string) {
+		for _, f := range strings.Fields(t) {
+			have[f] = true
+		}
+	}
+	for _, b := range g.blocks {
+		addText(b.open)
+	}
+	for _, s := range g.slots {
+		for _, sp := range append(append([]spelling(nil), s.sp...), s.xsp...) {
+			addText(sp.text)
+		}
+	}
+	seen := map[string]bool{}
+	inCode := false
+	for _, line := range strings.Split(string(src), "\n") {
+		if strings.HasPrefix(line, "func ") {
+			inCode = true
+		}
+		if !inCode {
+			continue
+		}
+		line = strings.TrimSpace(line)
+		if !strings.HasPrefix(line, "case \"") && !strings.HasPrefix(line, "\"") {
+			continue
+		}
+		for _, part := range strings.Split(strings.TrimSuffix(strings.TrimPrefix(line, "case "), ":"), ",") {
+			part = strings.TrimSpace(part)
+			if len(part) < 2 || part[0] != '"' || part[len(part)-1] != '"' {
+				continue
+			}
+			kw := part[1 : len(part)-1]
+			if seen[kw] {
+				continue
+			}
+			seen[kw] = true
+			total++
+			if !have[kw] {
+				missing = append(missing, kw)
+			}
+		}
+	}
+	sort.Strings(missing)
+	return total, missing
 }
 
 // replay re-runs one recorded case: bin/check C19 --replay /verif/replays/C19-….json
@@ -439,6 +505,6 @@ func replay(e *engine, path string) {
 	e.r.NotExhaustive("replay of a single case")
 	if v.kind != "" {
 		text := doc.Replay.Text
-		e.r.Violation(doc.Key, v.detail, map[string]any{"text": text, "formatted": v.out}, func() bool { return check(text).kind != "" })
+		e.r.Violation(doc.Key, v.detail, map[string]any{"text": text, "formatted": v.out, "family": "replay", "detail": v.detail}, func() bool { return check(text).kind != "" })
 	}
 }
